@@ -1,12 +1,597 @@
-//! C05 — not built yet (stub; see DESIGN.md §5).
-use crate::ctx::Tier;
-use serde_json::Value;
+//! C05 (mc part) — bytes put on a connection are always whole frames. Forced
+//! stalls (exact write credit on in-memory streams), concurrent writers and
+//! interrupted writes (abandoned call, write timeout) on the tokio client and
+//! servers, plus large-frame rows on the blocking server over real TCP. The
+//! blocking client is decided under loom (lm part).
 
-pub fn run(_tier: Tier) -> ! {
-    eprintln!("MACHINERY-ERROR property=C05 check not built yet");
-    std::process::exit(2)
+use crate::clients::{self, Cli, Conn, Kind, Res};
+use crate::ctx::{Ctx, Samples, Tier};
+use crate::frames::{self, FMT_JSON, Frame};
+use crate::memstream;
+use crate::par;
+use crate::wsh::{self, Got, Serve};
+use repe::{CallContext, ErrorCode, NotifyBody, Router};
+use serde_json::{Value, json};
+use std::collections::BTreeMap;
+use std::io::{Read, Write};
+use std::time::Duration;
+
+#[derive(Clone, Debug)]
+enum Scenario {
+    /// m concurrent calls (+1 notify) with the given pads; the peer accepts `stall` bytes, then everything
+    ClientWriters { kind: Kind, pads: Vec<usize>, stall: Option<usize> },
+    /// call A (large) is abandoned after exactly `k` bytes were accepted; then call B
+    ClientAbandon { kind: Kind, k: usize },
+    /// AsyncServer with a write timeout: response stalls after `k` bytes past the deadline
+    AsyncServerWriteTimeout { k: usize, pipelined: bool },
+    /// AsyncServer, pipelined requests, response stream stalled after `k` bytes then released
+    AsyncServerStall { k: usize, n: usize },
+    /// WebSocket server: off-reader responses + handler-pushed notifies with a stalled peer
+    WsServerMixed { n: usize, stall: usize },
+    /// blocking Server over TCP: 24 MiB response, peer stops reading past the write timeout
+    BlockingServerWriteTimeout,
+    /// blocking Server over TCP: concurrent large responses on separate connections + pipelining
+    BlockingServerLarge,
+    /// blocking Client over TCP with a write timeout: a 24 MiB notify is interrupted by a peer
+    /// that is not reading; the peer then resumes and the client sends again
+    BlockingClientWriteTimeout,
 }
 
-pub fn replay(_case: &Value) -> Result<(), String> {
-    Err("no replay for C05 yet".into())
+fn scenarios(tier: Tier) -> Vec<Scenario> {
+    let mut v = Vec::new();
+    let cap = 8192usize; // BufWriter capacity
+    let frame_overhead = 48 + 2 + 16; // header + "/p" + {"t":NNN,"p":""}
+    let pad_classes = [0usize, 1, cap - frame_overhead - 1, cap - frame_overhead, cap - frame_overhead + 1, cap, cap + 1, 65536];
+    for kind in [Kind::Async, Kind::Ws] {
+        for (i, &a) in pad_classes.iter().enumerate() {
+            for &b in &pad_classes[i % 3..] {
+                for stall in [None, Some(0), Some(1), Some(47), Some(48), Some(49), Some(60), Some(cap - 1), Some(cap), Some(cap + 1)] {
+                    v.push(Scenario::ClientWriters { kind, pads: vec![a, b], stall });
+                    if tier == Tier::Thorough {
+                        v.push(Scenario::ClientWriters { kind, pads: vec![a, b, 0, a], stall });
+                    }
+                }
+            }
+        }
+        v.push(Scenario::ClientWriters { kind, pads: vec![0, 0, 0, 0], stall: Some(10) });
+        for k in [0usize, 1, 10, 47, 48, 49, 50, 66, 5000, cap - 1, cap, cap + 1, 2 * cap, 19_000] {
+            v.push(Scenario::ClientAbandon { kind, k });
+        }
+    }
+    for k in [0usize, 1, 47, 48, 50, 51, 4096, cap - 1, cap, cap + 1, 15_000, 20_049] {
+        for pipelined in [false, true] {
+            v.push(Scenario::AsyncServerWriteTimeout { k, pipelined });
+        }
+        for n in [2usize, 3] {
+            v.push(Scenario::AsyncServerStall { k, n });
+        }
+    }
+    for n in [2usize, 3, tier.pick(4, 8)] {
+        for stall in [0usize, 1, 10, 100, 5000] {
+            v.push(Scenario::WsServerMixed { n, stall });
+        }
+    }
+    v.push(Scenario::BlockingServerWriteTimeout);
+    v.push(Scenario::BlockingServerLarge);
+    v.push(Scenario::BlockingClientWriteTimeout);
+    v
 }
+
+type Bad = Vec<(String, String)>;
+
+// ------------------------------------------------------------------ clients
+
+async fn client_writers(kind: Kind, pads: &[usize], stall: Option<usize>) -> (Bad, u64) {
+    let mut bad = Bad::new();
+    let ctx = format!("{} pads {pads:?} stall {stall:?}", kind.name());
+    let Conn { cli, mut peer, .. } = clients::connect(kind).await;
+    if let Some(k) = stall {
+        peer.ctl().a_to_b.set_credit(Some(k));
+    }
+    let mut tags = Vec::new();
+    let mut hs = Vec::new();
+    for (i, pad) in pads.iter().enumerate() {
+        let tag = 100 + i as u64;
+        tags.push(tag);
+        hs.push(tokio::spawn(cli.call(tag, None, *pad)));
+    }
+    let n = tokio::spawn(cli.notify(900, pads[0]));
+    tags.push(900);
+    memstream::settle().await;
+    let mut flags = 0;
+    if stall.is_some() && peer.ctl().a_to_b.stalls() > 0 {
+        flags |= 1;
+    }
+    // the peer resumes reading
+    peer.ctl().a_to_b.set_credit(None);
+    let reqs = match peer.drain_requests().await {
+        Ok(r) => r,
+        Err(e) => {
+            bad.push((format!("C05:{}:torn-or-interleaved", kind.name()), format!("{ctx}: {e}")));
+            return (bad, flags);
+        }
+    };
+    if peer.partial_len() != 0 {
+        bad.push((format!("C05:{}:incomplete-frame", kind.name()), format!("{ctx}: {} bytes of an incomplete frame remain after all writers finished", peer.partial_len())));
+    }
+    let mut got: Vec<u64> = reqs.iter().filter_map(clients::tag_of).collect();
+    got.sort();
+    let mut want = tags.clone();
+    want.sort();
+    if got != want {
+        bad.push((format!("C05:{}:frames-differ-from-sent", kind.name()), format!("{ctx}: tags in the frames received {got:?}, tags sent {want:?}")));
+    }
+    for f in &reqs {
+        let pad_ok = serde_json::from_slice::<Value>(&f.body).ok().map(|v| v.get("p").and_then(|p| p.as_str()).is_none_or(|p| p.bytes().all(|b| b == b'x')));
+        if pad_ok != Some(true) {
+            bad.push((format!("C05:{}:foreign-bytes-in-frame", kind.name()), format!("{ctx}: a received frame's body is not what any caller sent")));
+        }
+    }
+    // answer so the calls end
+    let ids = clients::tag_ids(&reqs);
+    for (i, h) in hs.into_iter().enumerate() {
+        if let Some(id) = ids.get(&(100 + i as u64)) {
+            peer.send(&clients::reply(*id)).await;
+        }
+        let _ = clients::join_call(h).await;
+    }
+    let _ = n.await;
+    (bad, flags | 2)
+}
+
+async fn client_abandon(kind: Kind, k: usize) -> (Bad, u64) {
+    let mut bad = Bad::new();
+    let ctx = format!("{} abandoned after {k} bytes", kind.name());
+    let Conn { cli, mut peer, .. } = clients::connect(kind).await;
+    peer.ctl().a_to_b.set_credit(Some(k));
+    let a = tokio::spawn(cli.call(1, None, 20_000));
+    memstream::settle().await;
+    let accepted_before = peer.ctl().a_to_b.written_total();
+    let mut flags = 0;
+    if !a.is_finished() && peer.ctl().a_to_b.stalls() > 0 {
+        flags |= 4; // really interrupted mid-write
+    }
+    a.abort();
+    let _ = a.await;
+    memstream::settle().await;
+    // a later caller, then the peer resumes reading
+    let b = tokio::spawn(cli.call(2, None, 0));
+    memstream::settle().await;
+    peer.ctl().a_to_b.set_credit(None);
+    memstream::settle().await;
+    let wire = match &mut peer {
+        clients::Peer::Raw { ctl, .. } => ctl.a_to_b.take(),
+        clients::Peer::Ws { .. } => Vec::new(),
+    };
+    match kind {
+        Kind::Async => {
+            // everything the client ever wrote: must be whole frames, or (interrupted write)
+            // nothing may follow what the interrupted write had already handed over
+            match frames::split_stream(&wire) {
+                Ok((fr, 0)) => {
+                    // whole frames only: fine (the interrupted frame was completed or never started)
+                    let _ = fr;
+                }
+                Ok((_, rest)) => {
+                    let _ = rest;
+                    if wire.len() as u64 > accepted_before.max(k as u64) {
+                        bad.push((
+                            "C05:AsyncClient:bytes-after-interrupted-write".into(),
+                            format!("{ctx}: the abandoned call had handed over {accepted_before} bytes of its frame; afterwards the connection carried {} bytes in total and they do not parse into whole frames", wire.len()),
+                        ));
+                    }
+                }
+                Err(e) => bad.push((
+                    "C05:AsyncClient:bytes-after-interrupted-write".into(),
+                    format!("{ctx}: after the abandoned write the peer received {} bytes that do not parse into frames ({e})", wire.len()),
+                )),
+            }
+            // answer whatever whole request for tag 2 arrived so the task ends
+            if let Ok((fr, _)) = frames::split_stream(&wire) {
+                if let Some(id) = clients::tag_ids(&fr).get(&2) {
+                    peer.send(&clients::reply(*id)).await;
+                }
+            }
+        }
+        Kind::Ws => match peer.drain_requests().await {
+            Ok(reqs) => {
+                if let Some(id) = clients::tag_ids(&reqs).get(&2) {
+                    peer.send(&clients::reply(*id)).await;
+                }
+            }
+            Err(e) => bad.push(("C05:WebSocketClient:bytes-after-interrupted-write".into(), format!("{ctx}: {e}"))),
+        },
+    }
+    let rb = clients::join_call(b).await;
+    // (if the stream was torn the peer cannot answer, so a hanging later call is the same
+    // defect, already reported above)
+    if rb == Res::Hang && bad.is_empty() {
+        bad.push((format!("C05:{}:later-call-hangs-after-abandon", kind.name()), format!("{ctx}: the next call never returned")));
+    }
+    (bad, flags | 8)
+}
+
+// ------------------------------------------------------------------ AsyncServer
+
+fn big_router() -> Router {
+    Router::new()
+        .with_json("/big", |v: Value| Ok(json!({"tag": v, "pad": "y".repeat(20_000)})))
+        .with_json("/small", |v: Value| Ok(json!({"tag": v})))
+}
+
+async fn async_server_conn(write_timeout: Option<Duration>, slot: u16) -> (memstream::Ctl, memstream::End, tokio::task::JoinHandle<()>) {
+    let tx = repe::verif_io::register_listener(slot);
+    let listener = repe::AsyncServer::listen(("127.254.77.1", slot)).await.expect("mem listen");
+    let srv = tokio::spawn(async move {
+        let _ = repe::AsyncServer::new(big_router()).write_timeout(write_timeout).serve(listener).await;
+    });
+    let (server_end, client_end, ctl) = memstream::pair();
+    tx.send(Box::new(server_end)).ok();
+    (ctl, client_end, srv)
+}
+
+static SRV_SLOT: std::sync::atomic::AtomicU64 = std::sync::atomic::AtomicU64::new(0);
+fn srv_slot() -> u16 {
+    (30_000 + SRV_SLOT.fetch_add(1, std::sync::atomic::Ordering::SeqCst) % 20_000) as u16
+}
+
+async fn async_server_write_timeout(k: usize, pipelined: bool) -> (Bad, u64) {
+    let mut bad = Bad::new();
+    let ctx = format!("AsyncServer write_timeout=1s, response stalled after {k} bytes, pipelined={pipelined}");
+    let (ctl, _client_end, srv) = async_server_conn(Some(Duration::from_secs(1)), srv_slot()).await;
+    ctl.a_to_b.set_credit(Some(k));
+    ctl.b_to_a.push(&Frame::request(1, "/big", b"1", FMT_JSON, false).to_bytes());
+    if pipelined {
+        ctl.b_to_a.push(&Frame::request(2, "/small", b"2", FMT_JSON, false).to_bytes());
+    }
+    memstream::settle().await;
+    let mut flags = 0;
+    if ctl.a_to_b.stalls() > 0 {
+        flags |= 16;
+    }
+    // the write timeout expires while the peer is not reading
+    tokio::time::advance(Duration::from_secs(3)).await;
+    memstream::settle().await;
+    let handed_over = ctl.a_to_b.written_total();
+    // the peer resumes reading and (if not pipelined) sends another request
+    ctl.a_to_b.set_credit(None);
+    if !pipelined {
+        ctl.b_to_a.push(&Frame::request(2, "/small", b"2", FMT_JSON, false).to_bytes());
+    }
+    memstream::settle().await;
+    tokio::time::advance(Duration::from_secs(3)).await;
+    memstream::settle().await;
+    let wire = ctl.a_to_b.take();
+    match frames::split_stream(&wire) {
+        Ok((_, 0)) => {} // whole frames only (the response fitted before the deadline)
+        Ok((_, _rest)) => {
+            if wire.len() as u64 > handed_over {
+                bad.push(("C05:AsyncServer:bytes-after-timed-out-write".into(), format!("{ctx}: {handed_over} bytes had been handed over when the write timed out; the connection later carried {} bytes, not whole frames", wire.len())));
+            }
+        }
+        Err(e) => bad.push(("C05:AsyncServer:bytes-after-timed-out-write".into(), format!("{ctx}: after the timed-out write the peer received {} bytes that do not parse into frames ({e})", wire.len()))),
+    }
+    srv.abort();
+    (bad, flags | 32)
+}
+
+async fn async_server_stall(k: usize, n: usize) -> (Bad, u64) {
+    let mut bad = Bad::new();
+    let ctx = format!("AsyncServer, {n} pipelined requests, peer stalls after {k} bytes then resumes");
+    let (ctl, _client_end, srv) = async_server_conn(None, srv_slot()).await;
+    ctl.a_to_b.set_credit(Some(k));
+    for i in 0..n {
+        let path = if i % 2 == 0 { "/big" } else { "/small" };
+        ctl.b_to_a.push(&Frame::request(10 + i as u64, path, i.to_string().as_bytes(), FMT_JSON, false).to_bytes());
+    }
+    memstream::settle().await;
+    ctl.a_to_b.set_credit(None);
+    memstream::settle().await;
+    let wire = ctl.a_to_b.take();
+    match frames::split_stream(&wire) {
+        Ok((fr, 0)) => {
+            let ids: Vec<u64> = fr.iter().map(|f| f.h.id).collect();
+            let want: Vec<u64> = (0..n as u64).map(|i| 10 + i).collect();
+            if ids != want {
+                bad.push(("C05:AsyncServer:frames-differ".into(), format!("{ctx}: response ids {ids:?}, expected {want:?}")));
+            }
+        }
+        other => bad.push(("C05:AsyncServer:torn-or-interleaved".into(), format!("{ctx}: {:?}", other.map(|(f, r)| (f.len(), r))))),
+    }
+    srv.abort();
+    (bad, 64)
+}
+
+// ------------------------------------------------------------------ WebSocket server
+
+async fn ws_server_mixed(n: usize, stall: usize) -> (Bad, u64) {
+    let mut bad = Bad::new();
+    let ctx = format!("WebSocket server, {n} off-reader requests each pushing 2 notifies, peer stalls after {stall} bytes");
+    let router = Router::new().with_json_ctx_blocking("/work", |ctx: &CallContext, v: Value| -> Result<Value, (ErrorCode, String)> {
+        if let Some(p) = ctx.peer() {
+            let _ = p.send_notify("/n1", NotifyBody::Json(format!("{{\"of\":{v},\"pad\":\"{}\"}}", "n".repeat(3000)).into_bytes()));
+            let _ = p.send_notify("/n2", NotifyBody::Json(format!("{{\"of\":{v}}}").into_bytes()));
+        }
+        Ok(json!({"done": v, "pad": "r".repeat(5000)}))
+    });
+    let shared = repe::WebSocketServer::new(router).with_offreader_limit(0).into_shared();
+    let mut c = wsh::connect(&shared, Serve::Plain, None).await;
+    c.ctl.a_to_b.set_credit(Some(stall));
+    for i in 0..n {
+        if c.send_frame(&Frame::request(50 + i as u64, "/work", i.to_string().as_bytes(), FMT_JSON, false)).await.is_err() {
+            bad.push(("C05:harness".into(), "send failed".into()));
+        }
+    }
+    // handlers run on blocking threads; give them (real) time to queue their output, then release
+    for _ in 0..200 {
+        tokio::task::yield_now().await;
+        std::thread::sleep(Duration::from_micros(200));
+    }
+    c.ctl.a_to_b.set_credit(None);
+    let mut responses = 0;
+    let mut notifies = 0;
+    let total = 3 * n;
+    for _ in 0..total {
+        match c.next(Duration::from_secs(10)).await {
+            Got::Frame(f) => {
+                if f.h.notify != 0 { notifies += 1 } else { responses += 1 }
+            }
+            Got::BadBinary(b) => {
+                bad.push(("C05:WebSocketServer:message-not-one-frame".into(), format!("{ctx}: a binary message of {} bytes is not exactly one frame", b.len())));
+            }
+            other => {
+                bad.push(("C05:WebSocketServer:missing-frames".into(), format!("{ctx}: {other:?} after {responses} responses and {notifies} notifies")));
+                break;
+            }
+        }
+    }
+    if bad.is_empty() && (responses != n || notifies != 2 * n) {
+        bad.push(("C05:WebSocketServer:frames-differ".into(), format!("{ctx}: {responses} responses and {notifies} notifies received")));
+    }
+    drop(c.client);
+    let _ = tokio::time::timeout(Duration::from_secs(10), c.server).await;
+    (bad, 128)
+}
+
+// ------------------------------------------------------------------ blocking Server over TCP
+
+fn blocking_server(write_timeout: Option<Duration>) -> std::net::SocketAddr {
+    let router = Router::new()
+        .with_json("/huge", |v: Value| Ok(json!({"tag": v, "pad": "z".repeat(24 << 20)})))
+        .with_json("/small", |v: Value| Ok(json!({"tag": v})));
+    let server = repe::Server::new(router).write_timeout(write_timeout);
+    let listener = server.listen("127.0.0.1:0").expect("listen");
+    let addr = listener.local_addr().unwrap();
+    std::thread::spawn(move || {
+        let _ = server.serve(listener);
+    });
+    addr
+}
+
+fn blocking_server_write_timeout() -> (Bad, u64) {
+    let mut bad = Bad::new();
+    let ctx = "blocking Server write_timeout=300ms, 24 MiB response, peer stops reading";
+    let addr = blocking_server(Some(Duration::from_millis(300)));
+    let mut s = std::net::TcpStream::connect(addr).expect("connect");
+    s.write_all(&Frame::request(1, "/huge", b"1", FMT_JSON, false).to_bytes()).unwrap();
+    s.write_all(&Frame::request(2, "/small", b"2", FMT_JSON, false).to_bytes()).unwrap();
+    // read only the header of the first response, then stop reading well past the timeout
+    let mut hdr = [0u8; 48];
+    s.set_read_timeout(Some(Duration::from_secs(10))).ok();
+    if s.read_exact(&mut hdr).is_err() {
+        return (vec![("C05:harness".into(), format!("{ctx}: no response header"))], 0);
+    }
+    std::thread::sleep(Duration::from_millis(1500));
+    let mut rest = Vec::new();
+    let _ = s.read_to_end(&mut rest);
+    let mut wire = hdr.to_vec();
+    wire.extend(rest);
+    let mut flags = 0;
+    match frames::split_stream(&wire) {
+        Ok((fr, 0)) => {
+            // the kernel buffers may have absorbed everything: then both responses are whole
+            let _ = fr;
+        }
+        Ok((fr, rest)) => {
+            flags |= 256; // really torn by the timeout
+            if !fr.is_empty() {
+                bad.push(("C05:Server:bytes-after-timed-out-write".into(), format!("{ctx}: {} whole frame(s) and then {rest} bytes of a torn one", fr.len())));
+            }
+        }
+        Err(e) => bad.push(("C05:Server:bytes-after-timed-out-write".into(), format!("{ctx}: bytes after the torn response do not parse ({e})"))),
+    }
+    (bad, flags | 512)
+}
+
+fn blocking_server_large() -> (Bad, u64) {
+    let mut bad = Bad::new();
+    let addr = blocking_server(None);
+    let hs: Vec<_> = (0..3u64)
+        .map(|c| {
+            std::thread::spawn(move || -> Result<(), String> {
+                let mut s = std::net::TcpStream::connect(addr).map_err(|e| e.to_string())?;
+                s.set_read_timeout(Some(Duration::from_secs(30))).ok();
+                for i in 0..2u64 {
+                    s.write_all(&Frame::request(c * 10 + i, if i == 0 { "/huge" } else { "/small" }, b"7", FMT_JSON, false).to_bytes()).map_err(|e| e.to_string())?;
+                }
+                s.shutdown(std::net::Shutdown::Write).ok();
+                let mut back = Vec::new();
+                s.read_to_end(&mut back).map_err(|e| e.to_string())?;
+                let (fr, rest) = frames::split_stream(&back)?;
+                let ids: Vec<u64> = fr.iter().map(|f| f.h.id).collect();
+                if rest != 0 || ids != vec![c * 10, c * 10 + 1] {
+                    return Err(format!("connection {c}: frames {ids:?}, {rest} trailing bytes"));
+                }
+                Ok(())
+            })
+        })
+        .collect();
+    for h in hs {
+        if let Err(e) = h.join().unwrap() {
+            bad.push(("C05:Server:torn-or-interleaved".into(), format!("blocking Server, 3 connections x (24 MiB + small) pipelined: {e}")));
+        }
+    }
+    (bad, 1024)
+}
+
+/// The stream must be whole frames, optionally ending in the prefix of one more frame whose
+/// received bytes all belong to that frame (nothing may follow an interrupted write).
+fn check_client_stream(wire: &[u8], bodies: &[Vec<u8>]) -> Result<(usize, bool), String> {
+    let mut off = 0;
+    let mut whole = 0;
+    while off < wire.len() {
+        let rest = &wire[off..];
+        if rest.len() < 48 {
+            return Ok((whole, true));
+        }
+        let h = frames::Hdr::decode_raw(rest).unwrap();
+        if h.consistent_total().is_none() {
+            return Err(format!("at offset {off}: not a frame header ({h:?}): bytes followed an interrupted frame"));
+        }
+        let (q, b) = (h.query_length as usize, h.body_length as usize);
+        let start = (48 + q).min(rest.len());
+        let avail = (rest.len() - start).min(b);
+        if !bodies.iter().any(|e| e.len() == b && e.starts_with(&rest[start..start + avail])) {
+            return Err(format!("frame at offset {off} (id {}, body length {b}): its first {avail} body bytes are not a prefix of any body the client sent — another write continued inside an interrupted frame", h.id));
+        }
+        if rest.len() < 48 + q + b {
+            return Ok((whole, true));
+        }
+        whole += 1;
+        off += 48 + q + b;
+    }
+    Ok((whole, false))
+}
+
+fn blocking_client_write_timeout() -> (Bad, u64) {
+    let mut bad = Bad::new();
+    let ctx = "blocking Client set_write_timeout(300 ms): 24 MiB notify to a peer that is not reading, then the peer resumes and the client sends a small notify";
+    let listener = std::net::TcpListener::bind("127.0.0.1:0").expect("bind");
+    let addr = listener.local_addr().unwrap();
+    let (go_tx, go_rx) = std::sync::mpsc::channel::<()>();
+    let peer = std::thread::spawn(move || -> Vec<u8> {
+        let (mut s, _) = listener.accept().expect("accept");
+        // do not read until told to
+        let _ = go_rx.recv();
+        s.set_read_timeout(Some(Duration::from_secs(10))).ok();
+        let mut all = Vec::new();
+        let _ = s.read_to_end(&mut all);
+        all
+    });
+    let client = repe::Client::connect(addr).expect("connect");
+    client.set_write_timeout(Some(Duration::from_millis(300))).expect("set_write_timeout");
+    let big = json!({"p": "x".repeat(24 << 20), "t": 1});
+    let small = json!({"t": 2});
+    let r1 = client.notify_json("/p", &big);
+    let mut flags = 0;
+    if r1.is_err() {
+        flags |= 2048; // the large write really was interrupted
+    }
+    // the peer resumes reading; the client writes again
+    go_tx.send(()).ok();
+    let r2 = client.notify_json("/p", &small);
+    drop(client);
+    let wire = peer.join().unwrap();
+    let bodies = vec![serde_json::to_vec(&big).unwrap(), serde_json::to_vec(&small).unwrap()];
+    match check_client_stream(&wire, &bodies) {
+        Ok(_) => {}
+        Err(e) => bad.push(("C05:Client:bytes-after-timed-out-write".into(), format!("{ctx}: first notify returned {:?}, second {:?}; peer received {} bytes: {e}", r1.as_ref().map_err(|e| e.to_string()), r2.as_ref().map_err(|e| e.to_string()), wire.len()))),
+    }
+    (bad, flags | 4096)
+}
+
+fn run_one(rt: &tokio::runtime::Runtime, sc: &Scenario) -> (Bad, u64) {
+    match sc {
+        Scenario::ClientWriters { kind, pads, stall } => rt.block_on(client_writers(*kind, pads, *stall)),
+        Scenario::ClientAbandon { kind, k } => rt.block_on(client_abandon(*kind, *k)),
+        Scenario::AsyncServerWriteTimeout { k, pipelined } => rt.block_on(async_server_write_timeout(*k, *pipelined)),
+        Scenario::AsyncServerStall { k, n } => rt.block_on(async_server_stall(*k, *n)),
+        Scenario::WsServerMixed { n, stall } => {
+            // off-reader handlers need real time: use a runtime whose clock is not paused
+            let rt2 = tokio::runtime::Builder::new_current_thread().enable_time().build().unwrap();
+            rt2.block_on(ws_server_mixed(*n, *stall))
+        }
+        Scenario::BlockingServerWriteTimeout => blocking_server_write_timeout(),
+        Scenario::BlockingServerLarge => blocking_server_large(),
+        Scenario::BlockingClientWriteTimeout => blocking_client_write_timeout(),
+    }
+}
+
+pub fn run(tier: Tier) -> ! {
+    let ctx = Ctx::new("C05", tier);
+    let all = scenarios(tier);
+    let samples = Samples::new(4);
+    samples.offer(|| json!(format!("{:?}", all[3])));
+    samples.offer(|| json!(format!("{:?}", all[all.len() - 3])));
+    let parts = par::for_each_index(
+        all.len() as u64,
+        4,
+        |_| {
+            let rt = tokio::runtime::Builder::new_current_thread().enable_time().start_paused(true).build().unwrap();
+            (rt, Vec::<(usize, String, String)>::new(), BTreeMap::<u64, u64>::new(), 0u64)
+        },
+        |(rt, bad, flagc, n), i| {
+            let (b, flags) = run_one(rt, &all[i as usize]);
+            *n += 1;
+            for bit in 0..13 {
+                if flags & (1 << bit) != 0 {
+                    *flagc.entry(bit).or_insert(0) += 1;
+                }
+            }
+            for (k, w) in b {
+                bad.push((i as usize, k, w));
+            }
+        },
+    );
+    let mut executed = 0;
+    let mut flagc = BTreeMap::<u64, u64>::new();
+    let mut bads = Vec::new();
+    for (_, bad, f, n) in parts {
+        executed += n;
+        for (k, v) in f {
+            *flagc.entry(k).or_insert(0) += v;
+        }
+        bads.extend(bad);
+    }
+    bads.sort_by_key(|b| b.0);
+    for (i, k, w) in bads {
+        ctx.violation(k, w, json!({"scenario": format!("{:?}", all[i]), "index": i, "tier": tier.name()}));
+    }
+    let g = |b: u64| flagc.get(&b).copied().unwrap_or(0);
+    if !ctx.has_violation() && [0u64, 1, 2, 3, 4, 5, 6, 7, 9, 10, 11, 12].iter().any(|b| g(*b) == 0) {
+        ctx.machinery(format!("vacuous exploration: a scenario family never ran or never stalled: {flagc:?}"));
+    }
+    let coverage = json!({
+        "evaluations": executed,
+        "distinct_nontrivial": all.len(),
+        "rule": "forced-stall scripts: (a) 2-4 concurrent calls + a notify on AsyncClient / WebSocketClient with payload sizes straddling the 8 KiB writer buffer, the peer accepting exactly k bytes (k over header/query/buffer boundary classes) before resuming; (b) a large call abandoned after exactly k accepted bytes, followed by another call; (c) AsyncServer with a 1 s write timeout whose response stalls after k bytes past the deadline, and pipelined responses stalled then released; (d) WebSocket server with concurrent off-reader responses and handler-pushed notifies against a stalled peer; (e) blocking Server over loopback TCP with 24 MiB responses (peer stops reading past a 300 ms write timeout; three connections pipelining). Everything the peer receives must parse into whole frames, and nothing may follow an interrupted write.",
+        "samples": samples.take(),
+        "exhaustive": executed == all.len() as u64,
+        "nonvacuity": {
+            "client_writers_really_stalled": g(0), "client_writer_scenarios": g(1), "abandon_really_mid_write": g(2), "abandon_scenarios": g(3),
+            "async_server_timeout_really_stalled": g(4), "async_server_timeout_scenarios": g(5), "async_server_stall_scenarios": g(6),
+            "ws_server_mixed_scenarios": g(7), "blocking_server_response_really_torn_by_timeout": g(8), "blocking_server_timeout_scenarios": g(9), "blocking_server_large_scenarios": g(10), "blocking_client_large_write_really_interrupted": g(11), "blocking_client_timeout_scenarios": g(12),
+        },
+    });
+    ctx.finish(
+        "fault_enumeration",
+        coverage,
+        &[
+            "in-memory rows are exact (write credit = stall offset, paused clock); the blocking Server rows depend on the kernel actually filling its socket buffers with a 24 MiB response (counter blocking_server_response_really_torn_by_timeout reports whether it did)",
+            "32 free-running writers are not explored; writer counts 2-4 under forced stalls are",
+        ],
+    )
+}
+
+pub fn replay(case: &Value) -> Result<(), String> {
+    let tier = if case["tier"].as_str() == Some("thorough") { Tier::Thorough } else { Tier::Quick };
+    let all = scenarios(tier);
+    let i = case["index"].as_u64().ok_or("index")? as usize;
+    let sc = all.get(i).ok_or("index out of range")?;
+    let rt = tokio::runtime::Builder::new_current_thread().enable_time().start_paused(true).build().unwrap();
+    let (b, _) = run_one(&rt, sc);
+    if b.is_empty() { Ok(()) } else { Err(b.into_iter().map(|(k, w)| format!("{k}: {w}")).collect::<Vec<_>>().join("\n")) }
+}
+
+#[allow(dead_code)]
+fn _unused(_: Cli) {}
